@@ -70,6 +70,7 @@ type Event struct {
 	May   []string         // added to may only
 	Kill  []string         // removed from must and may
 	Count map[string]uint8 // obligation -> set of possible increments
+	Reset []string         // obligations whose count restarts at 0 (entering a loop iteration)
 }
 
 func ev(must ...string) *Event { return &Event{Must: must} }
@@ -99,6 +100,7 @@ func mergeEvents(evs ...*Event) *Event {
 		out.Must = append(out.Must, e.Must...)
 		out.May = append(out.May, e.May...)
 		out.Kill = append(out.Kill, e.Kill...)
+		out.Reset = append(out.Reset, e.Reset...)
 		for k, v := range e.Count {
 			if out.Count == nil {
 				out.Count = map[string]uint8{}
@@ -197,6 +199,9 @@ func (f *Facts) apply(e *Event) {
 	}
 	for _, l := range e.May {
 		f.may[l] = true
+	}
+	for _, ob := range e.Reset {
+		f.cnt[ob] = c0
 	}
 	for ob, inc := range e.Count {
 		f.cnt[ob] = cntAdd(f.Cnt(ob), inc)
